@@ -390,4 +390,139 @@ theorem rndq_scaled (N D d : Nat) (e : Int) (hD : 0 < D) (hQ : 2 ^ 54 ≤ N / D)
       rw [c0] at e0; exact e0
     rw [cd, ed, e0']
 
+
+/-- floor and sticky bit are monotone in the rational: a/b ≤ c/d (cross-multiplied) -/
+theorem scaled_mono (a b c d : Nat) (hb : 0 < b) (hd : 0 < d) (h : a * d ≤ c * b) :
+    2 * (a / b) + (if a % b = 0 then 0 else 1) ≤ 2 * (c / d) + (if c % d = 0 then 0 else 1) := by
+  have ea := Nat.div_add_mod a b
+  have ec := Nat.div_add_mod c d
+  have ra := Nat.mod_lt a hb
+  have rc := Nat.mod_lt c hd
+  have hq : a / b ≤ c / d := by
+    rw [Nat.le_div_iff_mul_le hd]
+    apply Nat.le_of_mul_le_mul_right _ hb
+    calc a / b * d * b = (b * (a / b)) * d := by ac_rfl
+      _ ≤ a * d := Nat.mul_le_mul_right _ (by omega)
+      _ ≤ c * b := h
+  by_cases heq : a / b = c / d
+  · have hs : a % b ≠ 0 → c % d ≠ 0 := by
+      intro h1 h2
+      have hc : c = d * (c / d) := by omega
+      have hlt : b * (a / b) < a := by omega
+      have : c * b < a * d := by
+        calc c * b = (d * (c / d)) * b := by rw [← hc]
+          _ = (b * (a / b)) * d := by rw [heq]; ac_rfl
+          _ < a * d := Nat.mul_lt_mul_of_pos_right hlt hd
+      omega
+    rw [heq]
+    by_cases h1 : a % b = 0
+    · rw [if_pos h1]; omega
+    · rw [if_neg h1, if_neg (hs h1)]; exact Nat.le_refl _
+  · split <;> split <;> omega
+
+/-- the scale `roundRat` chooses, and the scaled numerator / denominator -/
+def kOf (num den : Nat) : Int := 57 + (den.log2 : Int) - (num.log2 : Int)
+def NOf (num den : Nat) : Nat := num * 2 ^ (kOf num den).toNat
+def DOf (num den : Nat) : Nat := den * 2 ^ (-(kOf num den)).toNat
+
+theorem roundRat_eq_scaled (num den : Nat) (hnum : 0 < num) :
+    roundRat false num den = roundPack false (scaled (NOf num den) (DOf num den) 0) (-(kOf num den) - 1) := by
+  unfold roundRat scaled NOf DOf kOf
+  rw [if_neg (by omega)]
+  simp only [Nat.pow_zero, Nat.mul_one]
+  generalize 57 + (den.log2 : Int) - (num.log2 : Int) = k
+  by_cases hk : k ≥ 0
+  · have h0 : (-k).toNat = 0 := by omega
+    simp only [hk, if_true, h0, Nat.pow_zero, Nat.mul_one, Nat.shiftLeft_eq]
+  · have h0 : k.toNat = 0 := by omega
+    simp only [hk, if_false, h0, Nat.pow_zero, Nat.mul_one, Nat.shiftLeft_eq]
+
+theorem DOf_pos (num den : Nat) (hden : 0 < den) : 0 < DOf num den :=
+  Nat.mul_pos hden (Nat.two_pow_pos _)
+
+theorem quot_big (num den : Nat) (hnum : 0 < num) (hden : 0 < den) : 2 ^ 54 ≤ NOf num den / DOf num den := by
+  rw [Nat.le_div_iff_mul_le (DOf_pos num den hden)]
+  have hlo := Nat.log2_self_le (n := num) (by omega)
+  have hhi := Nat.lt_log2_self (n := den)
+  unfold NOf DOf kOf
+  generalize num.log2 = ln at *
+  generalize den.log2 = ld at *
+  by_cases hk : (57 + (ld : Int) - (ln : Int)) ≥ 0
+  · have h0 : (-(57 + (ld : Int) - (ln : Int))).toNat = 0 := by omega
+    rw [h0, Nat.pow_zero, Nat.mul_one]
+    generalize hkn : (57 + (ld : Int) - (ln : Int)).toNat = kn
+    calc 2 ^ 54 * den ≤ 2 ^ 54 * 2 ^ (ld + 1) := Nat.mul_le_mul_left _ (Nat.le_of_lt hhi)
+      _ = 2 ^ (54 + (ld + 1)) := (Nat.pow_add _ _ _).symm
+      _ ≤ 2 ^ (ln + kn) := Nat.pow_le_pow_right (by decide) (by omega)
+      _ = 2 ^ ln * 2 ^ kn := Nat.pow_add _ _ _
+      _ ≤ num * 2 ^ kn := Nat.mul_le_mul_right _ hlo
+  · have h0 : (57 + (ld : Int) - (ln : Int)).toNat = 0 := by omega
+    rw [h0, Nat.pow_zero, Nat.mul_one]
+    generalize hj : (-(57 + (ld : Int) - (ln : Int))).toNat = j
+    calc 2 ^ 54 * (den * 2 ^ j) ≤ 2 ^ 54 * (2 ^ (ld + 1) * 2 ^ j) :=
+          Nat.mul_le_mul_left _ (Nat.mul_le_mul_right _ (Nat.le_of_lt hhi))
+      _ = 2 ^ (54 + (ld + 1 + j)) := by rw [← Nat.pow_add, ← Nat.pow_add]
+      _ ≤ 2 ^ ln := Nat.pow_le_pow_right (by decide) (by omega)
+      _ ≤ num := hlo
+
+theorem scaled_pos (N D d : Nat) (h : 2 ^ 54 ≤ N / D) (_hD : 0 < D) : 0 < scaled N D d := by
+  unfold scaled
+  have hpd : 0 < 2 ^ d := Nat.two_pow_pos _
+  have : N / D ≤ N * 2 ^ d / D := Nat.div_le_div_right (Nat.le_mul_of_pos_right _ hpd)
+  have := Nat.two_pow_pos 54
+  omega
+
+/-- MONOTONICITY of the exact rounding: num1/den1 ≤ num2/den2 (cross-multiplied) ⇒ the rounded doubles are in
+    the same order (as bit patterns of non-negative doubles, i.e. as numbers; +Inf on top) -/
+theorem roundRat_mono (num1 den1 num2 den2 : Nat) (hd1 : 0 < den1) (hd2 : 0 < den2)
+    (h : num1 * den2 ≤ num2 * den1) :
+    (roundRat false num1 den1).toNat ≤ (roundRat false num2 den2).toNat := by
+  by_cases hn1 : num1 = 0
+  · subst hn1
+    have : roundRat false 0 den1 = 0 := by unfold roundRat; rw [if_pos rfl]; rfl
+    rw [this]; exact Nat.zero_le _
+  have hn1' : 0 < num1 := by omega
+  have hn2 : 0 < num2 := by
+    apply Nat.pos_of_ne_zero
+    intro h0; subst h0
+    have := Nat.mul_pos hn1' hd2
+    omega
+  have q1 := quot_big num1 den1 hn1' hd1
+  have q2 := quot_big num2 den2 hn2 hd2
+  have D1 := DOf_pos num1 den1 hd1
+  have D2 := DOf_pos num2 den2 hd2
+  rw [roundRat_eq_scaled num1 den1 hn1', roundRat_eq_scaled num2 den2 hn2]
+  have t1 := roundPack_toNat _ (scaled_pos _ _ 0 q1 D1) (-(kOf num1 den1) - 1)
+  have t2 := roundPack_toNat _ (scaled_pos _ _ 0 q2 D2) (-(kOf num2 den2) - 1)
+  -- the common scale
+  generalize hK : max (kOf num1 den1) (kOf num2 den2) = K
+  have s1 := rndq_scaled (NOf num1 den1) (DOf num1 den1) (K - kOf num1 den1).toNat (-(kOf num1 den1) - 1) D1 q1
+  have s2 := rndq_scaled (NOf num2 den2) (DOf num2 den2) (K - kOf num2 den2).toNat (-(kOf num2 den2) - 1) D2 q2
+  have c1 : -(kOf num1 den1) - 1 - (((K - kOf num1 den1).toNat : Nat) : Int) = -K - 1 := by omega
+  have c2 : -(kOf num2 den2) - 1 - (((K - kOf num2 den2).toNat : Nat) : Int) = -K - 1 := by omega
+  rw [c1] at s1
+  rw [c2] at s2
+  rw [← s1] at t1
+  rw [← s2] at t2
+  have hle : scaled (NOf num1 den1) (DOf num1 den1) (K - kOf num1 den1).toNat ≤
+      scaled (NOf num2 den2) (DOf num2 den2) (K - kOf num2 den2).toNat := by
+    unfold scaled
+    apply scaled_mono _ _ _ _ D1 D2
+    unfold NOf DOf
+    have hX : (kOf num1 den1).toNat + (K - kOf num1 den1).toNat + (-(kOf num2 den2)).toNat =
+        (kOf num2 den2).toNat + (K - kOf num2 den2).toNat + (-(kOf num1 den1)).toNat := by omega
+    generalize (kOf num1 den1).toNat = a1 at *
+    generalize (K - kOf num1 den1).toNat = d1 at *
+    generalize (-(kOf num2 den2)).toNat = b2 at *
+    generalize (kOf num2 den2).toNat = a2 at *
+    generalize (K - kOf num2 den2).toNat = d2 at *
+    generalize (-(kOf num1 den1)).toNat = b1 at *
+    calc num1 * 2 ^ a1 * 2 ^ d1 * (den2 * 2 ^ b2) = (num1 * den2) * 2 ^ (a1 + d1 + b2) := by
+          rw [Nat.pow_add, Nat.pow_add]; ac_rfl
+      _ ≤ (num2 * den1) * 2 ^ (a1 + d1 + b2) := Nat.mul_le_mul_right _ h
+      _ = num2 * 2 ^ a2 * 2 ^ d2 * (den1 * 2 ^ b1) := by
+          rw [hX, Nat.pow_add, Nat.pow_add]; ac_rfl
+  have hm := rndq_mono _ _ (-K - 1) (scaled_pos _ _ _ q1 D1) hle
+  omega
+
 end NodisVerif.Proofs.FloatDecMono
